@@ -3,6 +3,7 @@
 From Coq Require Import ZArith List Znumtheory.
 From Verif Require Import Lib.Params Lib.Primes Spec.Edwards Model.BabyJub
   Proofs.BabyJubGroup Proofs.BabyJubModel Proofs.BabyJubOrder Proofs.BabyJubSmallOrder.
+From Verif Require Gen.BigIntRoutines Proofs.BigIntEqAdd.
 Local Open Scope Z_scope.
 
 Notation oc := (on_curve q ca cd).
@@ -64,9 +65,16 @@ Theorem C04_small_order_table : forall i j, 0 <= i < 8 -> 0 <= j < 8 ->
   Affine (Add (Projective (nth8 i)) (Projective (nth8 j))) = nth8 ((i + j) mod 8).
 Proof. exact small_order_table. Qed.
 
+(* TRANSLATOR TIE: tools/bigintgen regenerates value-level Gallina from the Go source of these
+   functions at every run (Gen/BigIntRoutines.v); it equals the hand-written model the theorems
+   above are about, for all arguments.  An edit of the Go function breaks this. *)
+Theorem C04_add_is_the_source : forall p o, BigIntRoutines.babyjub_PointProjective_Add p o = Add p o.
+Proof. exact BigIntEqAdd.gen_babyjub_PointProjective_Add_eq. Qed.
+
 Print Assumptions C04_add_is_group_law.
 Print Assumptions C04_group_laws.
 Print Assumptions C04_mul_is_repeated_addition.
 Print Assumptions C04_order_kills_all.
 Print Assumptions C04_constants.
 Print Assumptions C04_small_order_table.
+Print Assumptions C04_add_is_the_source.
